@@ -225,7 +225,12 @@ func hHasGroup(d *InputDescriptor, g string) bool {
 // and - if withReqs - group memberships (subset of {A,B} per descriptor) and 1..reqs submission requirements.
 func hGenDefinition(nd int, withReqs bool, reqs, shapes, nest, malformed int) PresentationDefinition {
 	def := PresentationDefinition{Id: "def"}
-	formats := vParam("formats", 1) // 1: the definition and descriptor d0 may designate formats
+	// 1: the definition and descriptor d0 may designate formats - without submission requirements only
+	// (matchConstraints, where formats are evaluated, is the same code in both modes)
+	formats := vParam("formats", 1)
+	if withReqs {
+		formats = 0
+	}
 	if formats > 0 && nd > 0 {
 		vTag("definition_format")
 		if vBool() {
